@@ -431,4 +431,50 @@ theorem lax_of_strict (b : Bytes) (σ : Nat × Nat) (h : parse true b = some σ)
               · cases h
               · simpa using h
 
+/-! ## T5d: for 256-bit scalars the encoding is DER proper (BIP66 shape) -/
+
+theorem sbytes_len_le {v : Nat} (h : v < 2 ^ 256) : (sbytes v).length ≤ 33 := by
+  have h1 := (sbytes_props v).1
+  have h2 := bitLength_le h
+  omega
+
+theorem serialize_lt253 (n : Nat) (h : n < 253) : Gen.VarInt.serialize ((n : Nat) : Int) = .ok [UInt8.ofNat n] := by
+  rw [VarInt.serialize_nat, if_pos h]
+
+/-- for `r, s < 2^256` what `Sig.serialize` writes is
+    `30 L 02 lr <r octets> 02 ls <s octets>` with every length ONE octet below `0x80` (`lr, ls ≤ 33`, `L ≤ 70`):
+    the DER short form, at most 72 octets — on this range the CompactSize spelling of a length and DER's coincide -/
+theorem serialize_bip66 (r s : Nat) (hr : r < 2 ^ 256) (hs : s < 2 ^ 256) :
+    serialize (r : Int) (s : Int) =
+      .ok (0x30 :: UInt8.ofNat (4 + (sbytes r).length + (sbytes s).length) :: 0x02 :: UInt8.ofNat (sbytes r).length ::
+        (sbytes r ++ 0x02 :: UInt8.ofNat (sbytes s).length :: sbytes s)) ∧
+    0 < (sbytes r).length ∧ (sbytes r).length ≤ 33 ∧ 0 < (sbytes s).length ∧ (sbytes s).length ≤ 33 ∧
+    4 + (sbytes r).length + (sbytes s).length < 0x80 := by
+  have lr := sbytes_len_le hr
+  have ls := sbytes_len_le hs
+  have pr := (sbytes_props r).1
+  have ps := (sbytes_props s).1
+  have e : ((2 :: ([UInt8.ofNat (sbytes r).length] ++ sbytes r)) ++
+      (2 :: ([UInt8.ofNat (sbytes s).length] ++ sbytes s))).length = 4 + (sbytes r).length + (sbytes s).length := by
+    simp only [List.length_cons, List.length_append, List.length_nil]; omega
+  have hb := serialize_lt253 (4 + (sbytes r).length + (sbytes s).length) (by omega)
+  rw [← e] at hb
+  have := serialize_nat r s _ _ _ (serialize_lt253 _ (by omega)) (serialize_lt253 _ (by omega)) hb
+  refine ⟨?_, by omega, lr, by omega, ls, by omega⟩
+  rw [this, e]
+  simp only [List.cons_append, List.nil_append, List.append_assoc]
+
+/-- hence: a string the strict parser reads as a 256-bit signature IS that DER short form -/
+theorem parseStrict_bip66 (b : Bytes) (r s : Nat) (h : parse true b = some (r, s)) (hr : r < 2 ^ 256) (hs : s < 2 ^ 256) :
+    b = 0x30 :: UInt8.ofNat (4 + (sbytes r).length + (sbytes s).length) :: 0x02 :: UInt8.ofNat (sbytes r).length ::
+        (sbytes r ++ 0x02 :: UInt8.ofNat (sbytes s).length :: sbytes s) ∧ b.length ≤ 72 := by
+  have h1 := serialize_parse b r s h
+  obtain ⟨h2, _, lr, _, ls, _⟩ := serialize_bip66 r s hr hs
+  rw [h1] at h2
+  have hb := Except.ok.inj h2
+  refine ⟨hb, ?_⟩
+  rw [hb]
+  simp only [List.length_cons, List.length_append]
+  omega
+
 end Btc.Der
